@@ -65,8 +65,48 @@ struct TN2 {
   NOP_TABLE_NS("vt.TN", TN2, inner, p);
 };
 
+// entry ids that need the U16 and the U64 integer class (ids are never reused, so they only grow over versions)
+struct TBIG {
+  nop::Entry<std::uint8_t, 300> a;
+  nop::Entry<std::uint8_t, 0x100000005ULL> b;
+  NOP_TABLE_HASH(9, TBIG, a, b);
+};
+
 template <typename E>
 inline std::uint64_t present(const E& e) { return e.empty() ? 0 : 1; }
+
+template <>
+struct Fmt<TBIG> {
+  static void enc(fmt::Out& o, const TBIG& v) {
+    fmt::put(o, FMT_TAB);
+    fmt::enc_uint(o, 9);
+    fmt::enc_uint(o, present(v.a) + present(v.b));
+    fmt::enc_entry(o, 300, v.a, 0);
+    fmt::enc_entry(o, 0x100000005ULL, v.b, 0);
+  }
+  static bool dec(fmt::In& in, TBIG* v) {
+    v->a.clear();
+    v->b.clear();
+    std::uint64_t count;
+    if (!fmt::dec_table_header(in, 9, &count)) return false;
+    for (std::uint64_t i = 0; i < count; i++) {
+      std::uint64_t id;
+      if (!fmt::dec_uint(in, 8, &id)) return false;
+      if (id == 300) { if (!fmt::dec_entry<std::uint8_t>(in, &v->a)) return false; }
+      else if (id == 0x100000005ULL) { if (!fmt::dec_entry<std::uint8_t>(in, &v->b)) return false; }
+      else if (!fmt::skip_entry(in)) return false;
+    }
+    return true;
+  }
+};
+template <>
+struct Gen<TBIG> {
+  static void make(TBIG* v) {
+    if (nondet<bool>()) v->a = nondet<std::uint8_t>(); else v->a.clear();
+    if (nondet<bool>()) v->b = nondet<std::uint8_t>(); else v->b.clear();
+  }
+  static bool eq(const TBIG& a, const TBIG& b) { return a.a == b.a && a.b == b.b; }
+};
 
 // ---- schemas
 template <>
@@ -327,6 +367,9 @@ inline void lemma_table_defects() {
 VT_HARNESS(h_enc_tw) { vt::lemma_encode<vt::TW>(); }
 VT_HARNESS(h_enc_tr1) { vt::lemma_encode<vt::TR1>(); }
 VT_HARNESS(h_enc_tn) { vt::lemma_encode<vt::TN>(); }
+VT_HARNESS(h_enc_tbig) { vt::lemma_encode<vt::TBIG>(); }
+VT_HARNESS(h_cap_tbig_bw) { vt::lemma_capacity<vt::TBIG, nop::BufferWriter, 22>(); }
+VT_HARNESS(h_rt_tbig_ped_ped) { vt::lemma_roundtrip<vt::TBIG, nop::PedanticBufferWriter, nop::PedanticBufferReader>(); }
 VT_HARNESS(h_dec_tw_ped) { vt::lemma_decode<vt::TW, nop::PedanticBufferReader, 10, false, false>(); }
 VT_HARNESS(h_dec_tw_ped14) { vt::lemma_decode<vt::TW, nop::PedanticBufferReader, 14, false, false>(); }
 VT_HARNESS(h_dec_tw_buf) { vt::lemma_decode<vt::TW, nop::BufferReader, 10, false, false>(); }
